@@ -31,7 +31,7 @@ def helper_args(h: Helper, shape: str, inplace, if_=True, recv=None):
     ndef = len(ps["pos_defaults"])
     for i, name in enumerate(ps["positional"]):
         has_default = i >= npos - ndef
-        if shape == "default" and has_default:
+        if shape in ("default", "kwonly") and has_default:
             continue
         kwargs[name] = arg_sym(name, tags={"nonsentinel"})
     for name, d in zip(ps["kwonly"], ps["kw_defaults"]):
@@ -43,10 +43,10 @@ def helper_args(h: Helper, shape: str, inplace, if_=True, recv=None):
             if if_ is not None:
                 kwargs[name] = Const(if_) if isinstance(if_, bool) else if_
             continue
-        if shape == "default" and d is not None:
+        if shape in ("default", "kwonly") and d is not None:
             continue
         kwargs[name] = arg_sym(name, tags={"nonsentinel"})
-    if ps["varkw"] and shape == "given":
+    if ps["varkw"] and shape in ("given", "kwonly"):
         kwargs["**"] = Sym((ps["varkw"], "[]"), {ARG})
     return args, kwargs
 
